@@ -37,6 +37,13 @@ def gen_cases(tier, seed):
                     for fa in fails:
                         cases.append({'forks': nf, 'window': w, 'length': length, 'fail_at': fa, 'slow_fork': rng.choice([None, 0, nf - 1]),
                                       'p': rng.choice([0.05, 0.15, 0.3]), 'seed': rng.randrange(1 << 30)})
+    # one fork (or the source) stalls for about a polling interval (the fork step polls the source lock every 0.1 s)
+    for i in range(40 if tier == 'quick' else 800):
+        w = rng.choice([2, 3])
+        length = rng.choice([w + 2, 3 * w])
+        cases.append({'forks': rng.choice([2, 3]), 'window': w, 'length': length, 'fail_at': rng.choice([None, None, length - 1, length]), 'slow_fork': None,
+                      'stall': [rng.choice(['fork', 'fork', 'source']), rng.randrange(0, length), round(rng.choice([rng.uniform(0.09, 0.25), rng.uniform(0.09, 0.25), rng.uniform(1.0, 1.06)]), 4)],
+                      'p': 0.2, 'seed': rng.randrange(1 << 30)})
     return cases
 
 
@@ -79,8 +86,12 @@ def run_case(case):
     cnt = Counters(nf, w + 2)
     src_calls = {'n': 0, 'after_fail': 0, 'failed': False}
 
+    stall = case.get('stall')
+
     def source():
         for i, x in enumerate(items):
+            if stall and stall[0] == 'source' and i == stall[1]:
+                time.sleep(stall[2])
             if fa is not None and i == fa:
                 src_calls['failed'] = True
                 raise Boom('src', i)
@@ -98,6 +109,8 @@ def run_case(case):
     pauses = [[rng.choice([0, 0, 0, 0.0003, 0.001]) for _ in range(n + 1)] for _ in range(nf)]
     if case['slow_fork'] is not None:
         pauses[case['slow_fork']] = [rng.choice([0.001, 0.003]) for _ in range(n + 1)]
+    if stall and stall[0] == 'fork':
+        pauses[0][min(stall[1], n)] = stall[2]
     start_delay = [rng.choice([0, 0, 0.001, 0.004]) for _ in range(nf)]
     results = [None] * nf
 
@@ -142,6 +155,8 @@ def run_case(case):
     fz.add_site(T.Fork.__next__, 'with self.instream_lock:', prob=0.3, delay=0.03, where='at', name='before-first-lock')
     fz.add_site(T.Fork.__next__, 'x = next(self.instream)', prob=0.3, delay=0.002, where='after', occurrence=1, name='holding-source-lock')
     fz.add_site(T.Fork.__next__, 'self.buffer.put(box)', prob=0.3, delay=0.002, where='at', occurrence=1, name='before-window-put')
+    if stall:
+        fz.add_handler_sites(T.Fork.__next__, prob=0.5, delay=0.01)
     threads = [threading.Thread(target=consume, args=(i,), name=f'fork-{i}', daemon=True) for i in range(nf)]
     viol = []
     fk = 'nofail' if fa is None else 'source-raises'
